@@ -51,11 +51,11 @@ FAMILY = {
 _IDENT = ['top1', 'tie', 'cmident', 'pdslice', 'cmreject']
 MIN_HITS = {
     'quick': dict({f'mon:{f}': 60 for f in FAMILY.values()}, **{f'mon:{f}': 40 for f in _IDENT},
-                  **{'edge:tie': 100, 'edge:fully-masked': 60, 'edge:k<1': 40, 'edge:k>=C': 40, 'edge:logits-mask': 40, 'edge:logits-mask-finite-bias': 40,
+                  **{'edge:tie': 100, 'edge:fully-masked': 60, 'edge:k<1': 40, 'edge:k>=C': 40, 'edge:logits-mask': 40, 'edge:logits-mask-finite-bias': 40, 'pdslice:overflowing-example': 5,
                      'edge:extreme': 60, 'edge:per-position': 40, 'edge:masked-token': 100}),
     'thorough': dict({f'mon:{f}': 600 for f in FAMILY.values()}, **{f'mon:{f}': 400 for f in _IDENT},
                      **{'edge:tie': 1000, 'edge:fully-masked': 600, 'edge:k<1': 400, 'edge:k>=C': 400,
-                        'edge:logits-mask': 400, 'edge:logits-mask-finite-bias': 400, 'edge:extreme': 600, 'edge:per-position': 400,
+                        'edge:logits-mask': 400, 'edge:logits-mask-finite-bias': 400, 'pdslice:overflowing-example': 50, 'edge:extreme': 600, 'edge:per-position': 400,
                         'edge:masked-token': 1000}),
 }
 
@@ -665,6 +665,19 @@ def check_perdomain_multi(ctx, M, jnp, rng, C, L, bname):
   if D > 1 and rng.rand() < 0.5:     # leave at least one domain empty
     empty = int(rng.randint(D))
     exs = [(y, p, np.int32((empty + 1) % D) if d == empty else d) for y, p, d in exs]
+  if bname == 'CrossEntropyLoss' and C >= 2 and rng.rand() < 0.6 and exs[0][1] is not None:
+    # finite but extreme scores: the base loss of this ONE example overflows to inf in float32; the slices of all other
+    # domains must be untouched by it (a select, not 0 * inf)
+    y0, p0, d0 = exs[0]
+    # target score -3e38, every other score +3e38: only the TARGET's log-probability underflows to -inf, so the base
+    # loss is exactly +inf (not NaN, which 0 * -inf on a non-target class would give)
+    p_ext = np.full_like(np.asarray(p0, np.float32), np.float32(3e38))
+    yy = np.asarray(y0).reshape(-1)
+    pe = p_ext.reshape(len(yy), C)
+    for t in range(len(yy)):
+      pe[t, int(yy[t])] = np.float32(-3e38)
+    exs[0] = (y0, pe.reshape(np.asarray(p0).shape), d0)
+    ctx.count('pdslice:overflowing-example')
   doms = [int(d) for _, _, d in exs]
   wit = {'metric': a, 'C': C, 'L': L, 'domains': doms, 'targets': [e[0] for e in exs], 'scores': [e[1] for e in exs]}
 
